@@ -73,6 +73,7 @@ type RPCRecord struct {
 	Ordinal  int    // n-th RPC of this client (0-based)
 	Mark     string // marker of the client at submit time (e.g. "commit")
 	MarkOrd  int    // n-th RPC of this client since the marker was set
+	CmdOrd   int    // n-th RPC of this command type sent by this client
 	Fate     Fate
 	// stamps
 	SubmitSeq, ExecSeq, DoneSeq uint64
@@ -100,10 +101,12 @@ type Net struct {
 	Backend Backend
 	Topo    Topo
 
-	// Plan: explicit fates keyed by "id:<identity>#<occ>" or "ord:<client>:<mark>+<n>".
+	// Plan: explicit fates keyed by "id:<identity>#<occ>", "ord:<client>:<mark>+<n>" or
+	// "cmd:<client>:<CmdType>+<n>" (the n-th request of that command type sent by the client).
 	Plan map[string]Fate
 	// Persist: "ord:<client>:<mark>+<n>" -> fate applied to the n-th and EVERY later request of that
-	// client's marked phase (a fault that does not go away).
+	// client's marked phase (a fault that does not go away); "cmd:<client>:<CmdType>" -> fate of EVERY
+	// request of that command type sent by the client (e.g. every clean-up message is lost).
 	Persist map[string]Fate
 	// Random fault rates (used when the key is not in Plan and RandomFaults is set).
 	RandomFaults bool
@@ -122,6 +125,7 @@ type Net struct {
 	ordinal    map[int]int
 	mark       map[int]string
 	markOrd    map[int]int
+	cmdOrd     map[string]int
 	tsoOrd     map[int]int
 	lat        *Hasher
 	fault      *Hasher
@@ -160,6 +164,7 @@ func NewNet(s *Sim, b Backend) *Net {
 		ordinal:    map[int]int{},
 		mark:       map[int]string{},
 		markOrd:    map[int]int{},
+		cmdOrd:     map[string]int{},
 		tsoOrd:     map[int]int{},
 		down:       make(chan struct{}),
 		lat:        NewHasher(s.Seed, "latency"),
@@ -219,6 +224,9 @@ func (n *Net) admitOne(rec *RPCRecord) {
 	rec.Mark = n.mark[c]
 	rec.MarkOrd = n.markOrd[c]
 	n.markOrd[c]++
+	ck := fmt.Sprintf("%d:%s", c, rec.Type.String())
+	rec.CmdOrd = n.cmdOrd[ck]
+	n.cmdOrd[ck]++
 	rec.cutCh = n.cutChLocked(c)
 	n.trace = append(n.trace, rec)
 	n.mu.Unlock()
@@ -552,6 +560,16 @@ func (n *Net) fateFor(rec *RPCRecord) (Fate, string) {
 	}
 	if f, ok := n.Plan[idKey]; ok {
 		return f, idKey
+	}
+	if len(n.Plan) > 0 || len(n.Persist) > 0 {
+		cmdKey := fmt.Sprintf("cmd:%d:%s+%d", rec.Client, rec.Type.String(), rec.CmdOrd)
+		if f, ok := n.Plan[cmdKey]; ok {
+			return f, cmdKey
+		}
+		pk := fmt.Sprintf("cmd:%d:%s", rec.Client, rec.Type.String())
+		if f, ok := n.Persist[pk]; ok {
+			return f, pk + ".."
+		}
 	}
 	if n.RandomFaults && len(n.FaultKinds) > 0 && (n.FaultFilter == nil || n.FaultFilter(rec)) {
 		if n.fault.Float(idKey) < n.FaultRate {
